@@ -28,7 +28,11 @@ RULE = ("SCALE SWEEP in every stream: all lengths of a case are multiplied by a 
         "triangle. SESSIONS: one object receives 5-9 operations in a row (repeated reads, the same operation twice, two Shape objects "
         "re-used on different triangle sets and after the object was replaced by its own up_sample()/neighborhood()/for_indexes()/"
         "with_vertices() result, a coordinate array turned into an ArrayTriangles by with_vertices(vertices)); for ArrayTriangles the user "
-        "also edits vertices[j] = p in place between reads; after every call the arrays handed in (indices, vertices, coordinates, the selection, "
+        "also edits vertices[j] = p in place between reads (area, the pooled shapes and up_sample/neighborhood/for_indexes are called "
+        "before the write and again after it; half of the writes carry away a corner of a triangle a pooled shape was just reported for); "
+        "every session contains two different shapes on one object and one shape re-used on a different set of the same length (the "
+        "selection rotated by one); with_vertices of a coordinate array is also called with vertices other than its own; "
+        "after every call the arrays handed in (indices, vertices, coordinates, the selection, "
         "the replacement vertices) and the shape's attributes must be unchanged and a second read must equal the first. "
         "Comparisons: exact rationals wherever every double operation is exact (checked per case by replaying the arithmetic in rationals); "
         "Non-trivial = at least two triangles; distinct = distinct JSON input.")
@@ -792,19 +796,47 @@ def a_steps(se, A, idx, verts, steps, pool, sc_hint):
                 _skipped["steps_in_band"] += 1
             R = None
         elif k == "edit":
-            # the user overwrites one row of the vertex array in place, then reads again
-            j = r.randrange(len(verts))
+            # the user overwrites one row of the vertex array in place, then reads again.
+            # every read-only observation is made BEFORE the write (so that anything remembered would be stale) ...
             sc = scale_of(tris_of(idx, verts))
+            cases, ok, _, _ = array_op(A, idx, verts, "area")
+            hit = []
+            for sh, P in pool.values():
+                try:
+                    check_band(sh, tris_of(idx, verts), False)
+                    c2, ok2, o2 = contain_op(A, tris_of(idx, verts), sh, P, lambda o, i_=idx, v_=verts, s_=sh: f"(KAContain {catri(i_, v_)} {cshape(s_)} {cnats(o)})")
+                    cases += c2; ok = ok and ok2; hit += o2
+                except Band: pass
+            A.up_sample(); A.neighborhood(); A.for_indexes(np.array([0], dtype=int))       # results discarded
+            j = r.randrange(len(verts))
             p = [verts[j][0] + sc * Fraction(r.randint(-6, 6), 4), verts[j][1] + sc * Fraction(r.randint(-6, 6), 4)]
-            if r.random() < 0.3: p = list(verts[r.randrange(len(verts))])       # now coincides with another vertex
-            if not (rep(p[0]) and rep(p[1])): continue
+            u = r.random()
+            if u < 0.25: p = list(verts[r.randrange(len(verts))])       # now coincides with another vertex
+            elif u < 0.7 and hit:
+                # a corner of a triangle that a pooled shape was just reported for is carried far away: the answer changes
+                j = idx[hit[r.randrange(len(hit))]][r.randrange(3)]
+                p = [verts[j][0] + sc * r.choice([-12, -9, 9, 12]), verts[j][1] + sc * r.choice([-12, -9, 9, 12])]
+            if not (rep(p[0]) and rep(p[1])):
+                se.add(name + ":no-write", cases, ok); continue
             A.vertices[j] = [float(p[0]), float(p[1])]
             verts = [list(v) for v in verts]; verts[j] = p
             edits.append((j, p))
+            # ... and again AFTER it: triangles, area, the pooled shapes, and one of up_sample / neighborhood / for_indexes
             out = fr_tris(A.triangles)
             es = clist([f"(Ed {int(e[0])} {cpt(e[1])})" for e in edits])
-            cases = [f"(KAEdits {catri(base_idx, base_verts)} {es} {ctris(out)})"]
-            ok = True; R = None
+            cases.append(f"(KAEdits {catri(base_idx, base_verts)} {es} {ctris(out)})")
+            c2, ok2, _, _ = array_op(A, idx, verts, "area")
+            cases += c2; ok = ok and ok2
+            which = ("up", "nbr", "for")[st["seed"] % 3] if nt <= 8 else "for"
+            c2, ok2, _, _ = array_op(A, idx, verts, which, [0] if which == "for" else None)
+            cases += c2; ok = ok and ok2
+            for sh, P in pool.values():
+                try:
+                    check_band(sh, tris_of(idx, verts), False)
+                    c2, ok2, _ = contain_op(A, tris_of(idx, verts), sh, P, lambda o, i_=idx, v_=verts, s_=sh: f"(KAContain {catri(i_, v_)} {cshape(s_)} {cnats(o)})")
+                    cases += c2; ok = ok and ok2
+                except Band: pass
+            R = None
         else: raise ValueError(k)
         # nothing that was handed in is modified by a call: the object's arrays are what the user last put there
         same = (bool(np.array_equal(np.asarray(A.indices), np.array(idx, dtype=int).reshape(-1, 3)))
